@@ -395,6 +395,16 @@ func check(id, tier string) int {
 	}
 	replayDir := filepath.Join(verifDir, "replays", id)
 	os.MkdirAll(replayDir, 0o755)
+	rewriteTest := "not run in this tier"
+	if p.Tier == "S" && tier == "thorough" {
+		// the rewrite must preserve sequential behaviour: the repository's own tests,
+		// on the rewritten tree, with the simulator inactive
+		out, err := run(sc.typ, goEnv(), "go", "test", "-vet=off", "-count=1", "./...")
+		if err != nil {
+			fail2("the repository's tests fail on the rewritten tree (simgen does not preserve behaviour here, or the tree's own tests fail):\n%s", tail(out, 3000))
+		}
+		rewriteTest = "the repository's tests pass on the rewritten tree with the simulator inactive"
+	}
 
 	var all []found
 	// 1. corpus: schedules that exposed a break once are the likeliest to expose its return
@@ -584,6 +594,9 @@ func check(id, tier string) int {
 		if v.isRace {
 			sig = raceSignature(errOut)
 			v.Detail = tail(errOut, 3000)
+			if !reported[sig] {
+				v.Replay, v.Detail = minimiseRace(sc, id, v.Replay, sig, v.Detail)
+			}
 			annotateReplay(v.Replay, sig, v.Detail)
 		}
 		if reported[sig] {
@@ -637,6 +650,7 @@ func check(id, tier string) int {
 		"components_stubbed":                     p.Stubbed,
 		"known_findings_hit":                     knownHit,
 		"simgen":                                 sc.simgen,
+		"rewrite_sanity":                         rewriteTest,
 	}
 	if p.Clock {
 		cov["simulated_time_s"] = float64(agg.SimNanos) / 1e9
@@ -655,6 +669,60 @@ func check(id, tier string) int {
 	fmt.Printf("verifsim: %s %s: %d runs (%d under the race detector), %d steps, %d distinct interleavings, %d violations, %d known findings, %.1fs\n",
 		id, tier, agg.Runs, raceRuns, agg.Steps, len(distinct), nviol, len(knownHit), wall)
 	return exit
+}
+
+// minimiseRace shrinks the scenario of a racing run. The detector reports a
+// race once per process, so every candidate is a fresh race-build process that
+// follows the old decision log where it still applies; an accepted candidate is
+// re-executed once more to record its own exact decision log.
+func minimiseRace(sc *scratch, id, file, sig, detail string) (string, string) {
+	deadline := time.Now().Add(40 * time.Second)
+	cur, curDetail := file, detail
+	work := filepath.Join(sc.dir, "racemin")
+	round := 0
+	for time.Now().Before(deadline) {
+		round++
+		dir := filepath.Join(work, strconv.Itoa(round))
+		os.MkdirAll(dir, 0o755)
+		if out, err := run(verifDir, os.Environ(), sc.race, "-prop", id, "-shrinklist", cur, "-out", dir); err != nil {
+			_ = out
+			return cur, curDetail
+		}
+		cands, _ := filepath.Glob(filepath.Join(dir, "cand-*.json"))
+		sort.Strings(cands)
+		progress := false
+		for _, c := range cands {
+			if time.Now().After(deadline) {
+				break
+			}
+			code, _, errOut := replayOnce(sc.race, id, c, false)
+			if code != 3 || raceSignature(errOut) != sig {
+				continue
+			}
+			norm := filepath.Join(dir, "accepted.json")
+			if _, err := run(verifDir, append(os.Environ(), "GORACE=halt_on_error=0 exitcode=0"), sc.race, "-prop", id, "-normalise", c, "-outfile", norm); err != nil {
+				continue
+			}
+			code2, _, errOut2 := replayOnce(sc.race, id, norm, false)
+			if code2 != 3 || raceSignature(errOut2) != sig {
+				continue
+			}
+			cur, curDetail, progress = norm, tail(errOut2, 3000), true
+			break
+		}
+		if !progress {
+			break
+		}
+	}
+	if cur == file {
+		return file, detail
+	}
+	dst := strings.TrimSuffix(file, ".json") + "-min.json"
+	b, err := os.ReadFile(cur)
+	if err != nil || os.WriteFile(dst, b, 0o644) != nil {
+		return file, detail
+	}
+	return dst, curDetail
 }
 
 func annotateReplay(path, sig, detail string) {
